@@ -158,13 +158,22 @@ def indexErrors (T : ScopeTable) (d : Depth) (spec : ColSpec) (D : Frame) : List
   | [l] => relabel spec.name (fieldErrors T d .index spec l.name l.dtype l.vals)
   | _ => [{ reason := .mismatchIndex, ctx := .index, label := spec.name }]
 
-/-- the lazy error list of `DataFrameSchema.validate`, in collection order -/
-def frameErrors (T : ScopeTable) (d : Depth) (S : Schema) (D : Frame) : List Err :=
-  strictOrderedErrors S D
-  ++ presenceErrors T d S D
+def indexPartErrors (T : ScopeTable) (d : Depth) (S : Schema) (D : Frame) : List Err :=
+  match S.index with
+  | some ix => indexErrors T d ix D
+  | none => []
+
+/-- the core checks proper (everything but the strict/ordered test, which the code performs inside
+a parser) -/
+def coreCheckErrors (T : ScopeTable) (d : Depth) (S : Schema) (D : Frame) : List Err :=
+  presenceErrors T d S D
   ++ jointUniqueErrors T d S D
   ++ (S.columns.map (fun c => columnErrors T d c D)).flatten
-  ++ (match S.index with | some ix => indexErrors T d ix D | none => [])
+  ++ indexPartErrors T d S D
+
+/-- the lazy error list of `DataFrameSchema.validate`, in collection order -/
+def frameErrors (T : ScopeTable) (d : Depth) (S : Schema) (D : Frame) : List Err :=
+  strictOrderedErrors S D ++ coreCheckErrors T d S D
 
 /-- verdict under the eager handler: the first error is raised -/
 def eagerError (T : ScopeTable) (d : Depth) (S : Schema) (D : Frame) : Option Err :=
